@@ -29,7 +29,7 @@ ASSUMPTIONS = ["value texts are canonical for their type (ints without sign/lead
                "values contain neither SOH nor NUL (data with SOH belongs to C06); messages below the 8 KB encode buffer (C03)"]
 RULE = ("messages generated from the dumped metadata: every message type, mandatory fields plus a random optional subset, values per "
         "field type (negative floats, '=' inside strings, boundary dates/times), groups with 0..3 elements nested to the schema's depth, "
-        "empty groups, random insertion order; each is built through the generic API, encoded, decoded by Message::factory, dumped, "
+        "empty groups, random insertion order; BodyLength exactly on and next to the digit-count boundaries 99/100/101, 999/1000/1001 (padded string field, messages with and without groups); each is built through the generic API, encoded, decoded by Message::factory, dumped, "
         "re-encoded on both sides. Known-finding classes: negative ints, floats whose real rendering changes the value (0.995, "
         "|v| >= 2^31), elements without their first field. non-trivial = all three stages OK with >= 8 tokens; distinct = distinct lines")
 
@@ -98,6 +98,7 @@ def gen_cases(rng, tier):
         px = pre(schema, default)
         gen = G.MsgGen(meta, rng)
         types = sorted(meta.msgs)
+        gtypes = [mt for mt in types if meta.groups.get(mt)]
         for mt in types * (3 if thorough else 1):
             cs.append(Case(px + "RT s " + G.ser_msg(*gen.message(mt)), "rt-type"))
         for _ in range(2000 if thorough else 400):
@@ -106,10 +107,43 @@ def gen_cases(rng, tier):
         for _ in range(400 if thorough else 100):
             cs.append(Case(px + "RT s " + G.ser_msg(*rich.message(max_wire=5000)), "rt-rich"))
         # group-heavy: types with groups, more elements
-        gtypes = [mt for mt in types if meta.groups.get(mt)]
         deep = G.MsgGen(meta, rng, p_opt=0.5)
         for _ in range(600 if thorough else 150):
             cs.append(Case(px + "RT s " + G.ser_msg(*deep.message(rng.choice(gtypes), max_wire=5500)), "rt-groups"))
+        # BodyLength digit-count ladder of Message::encode: pad a string field so that the body length
+        # (bytes between the 9= field and 10=) is exactly on each boundary and next to it; with and
+        # without repeating groups (9999/10000 do not fit into the 8 KB encode buffer)
+        def boundary_cases(mt, with_groups):
+            cand = [t for t in meta.traits.get(mt, []) if t.ftype == G.FT_STRING and not t.group and (t.flags & 4)]
+            if not cand:
+                return 0
+            t = cand[0]
+            g2 = G.MsgGen(meta, rng, p_opt=0.3 if with_groups else 0.0, max_elems=2 if with_groups else 0)
+            for _ in range(8):
+                mt2, hdr, body, trl = g2.message(mt, max_wire=700)
+                if not with_groups or any(f.elems for f in body):
+                    break
+            else:
+                return 0
+            body = [f for f in body if f.fnum != t.fnum]
+            base = len("35=%s\x01" % mt) + G.wire_estimate(hdr) + G.wire_estimate(body) + G.wire_estimate(trl) + len(str(t.fnum)) + 2
+            n = 0
+            for target in (99, 100, 101, 999, 1000, 1001):
+                need = target - base
+                if 1 <= need <= 2000:
+                    b2 = body + [G.Fld(t.fnum, b"x" * need)]
+                    rng.shuffle(b2)
+                    cs.append(Case(px + "RT s " + G.ser_msg(mt, hdr, b2, trl), "bodylength-%d%s" % (target, "-groups" if with_groups else "")))
+                    n += 1
+            return n
+        nb = 0
+        for mt in (types if thorough else types[:10]):
+            nb += boundary_cases(mt, False)
+        ng = 0
+        for mt in gtypes:
+            ng += boundary_cases(mt, True)
+            if not thorough and ng >= 40:
+                break
         # flat messages (no group elements, no Length/data pair, no trailer field): the domain of theorem
         # c01_roundtrip_partial -- run them (RT) and check that its hypotheses hold for them (HYP)
         def positioned(owner):
